@@ -16,6 +16,7 @@ PROP = "C16"
 THEOREMS = [
     "Verif.C16.viterbi_optimal",
     "Verif.C16.dwells_partition",
+    "Verif.C16.dwells_tile",
     "Verif.C16.dwells_exclude_ends",
     "Verif.C16.dwells_keys",
     "Verif.C16.dwells_all",
@@ -23,6 +24,8 @@ THEOREMS = [
     "Verif.C16.gamma_normalised",
     "Verif.C16.xi_marginal",
     "Verif.C16.update_normalised",
+    "Verif.C16.gamma_exact",
+    "Verif.C16.xi_exact",
 ]
 RULE = (
     "corpus (zero-probability initial states/transitions, the all-impossible model, constant paths, single runs) + "
@@ -33,8 +36,9 @@ RULE = (
     "ClassicHmm.update are compared with the exact rational model and with brute-force sums over ALL K^T paths; "
     "every label sequence of length <=7 (quick) / <=9 (thorough) over 3 labels through _dwellcounts_from_statepath "
     "in both modes, and a sample of them through HiddenMarkovModel.extract_dwell_times + seeded random: medium traces "
-    "(T<=40 quick / <=120 thorough) through the exact forward-backward model, long traces (T<=5000) through "
-    "Baum-Welch (manual E/M steps and the public constructor) for normalisation and EM monotonicity with the final "
+    "(T<=40 quick / <=64 thorough) through the exact forward-backward model, long traces (T<=5000) through "
+    "Baum-Welch (manual E/M steps and the public constructor with tol in {0, 1e-3, 0.5, 5}: n_iter, converged and "
+    "fit_info.log_likelihood must match the E/M sequence) for normalisation and EM monotonicity with the final "
     "model's Viterbi path scored exactly by the Lean model, long label sequences over <=5 labels (negative labels "
     "included) + malformed stream (empty trace, NaN labels, wrong initial_guess type, state-count mismatch). "
     "Non-trivial: decoded path with >=2 states; forward-backward with K>=2 and T>=2; EM with K>=2 and >=2 "
@@ -345,12 +349,12 @@ def _impl(case):
             rowdev.append(float(np.max(np.abs(np.sum(model.A, axis=1) - 1.0))))
             occ.append(float(np.min(np.sum(gamma[:-1], axis=0))))
         # the same through the public constructor
-        hm = pub.HiddenMarkovModel(data, case["K"], tol=0.0, max_iter=n, initial_guess=stub_hmm(classic(case)))
+        hm = pub.HiddenMarkovModel(data, case["K"], tol=case.get("tol", 0.0), max_iter=n, initial_guess=stub_hmm(classic(case)))
         fm = hm._model
         path = hm.state_path(trace_of(case["data"])).data
         return [json.dumps({
             "path": [int(s) for s in path], "ll": fl(lls), "pisum": fl(pisum), "rowdev": fl(rowdev), "occ": fl(occ),
-            "pub_ll": enc_float(hm.fit_info.log_likelihood), "pub_iter": int(hm.fit_info.n_iter),
+            "pub_ll": enc_float(hm.fit_info.log_likelihood), "pub_iter": int(hm.fit_info.n_iter), "pub_conv": bool(hm.fit_info.converged),
             "pub_pi": fl(hm.initial_state_probability), "pub_A": [fl(r) for r in np.atleast_2d(hm.transition_matrix)],
             "pub_mu": fl(hm.means), "pub_tau": fl(fm.tau),
         })]
@@ -629,10 +633,17 @@ def oracle_em(case, d):
             return f"update-normalised: initial distribution sums to {unfl(d['pisum'])[k]!r} after iteration {k + 1}"
         if not unfl(d["rowdev"])[k] <= TOL:
             return f"update-normalised: a transition-matrix row is off 1 by {unfl(d['rowdev'])[k]!r} after iteration {k + 1}"
+    # the public constructor stops at the first iteration whose log-likelihood step is below `tol`
+    tol = case.get("tol", 0.0)
+    stop = next((k for k in range(1, n + 1) if abs(ll[k] - ll[k - 1]) < tol), None)
+    n_pub = stop if stop is not None else n
     pub_ll = dec_float(d["pub_ll"])
-    if d["pub_iter"] != n or abs(pub_ll - ll[n]) > TOL * max(1.0, abs(ll[n])):
+    if d["pub_iter"] != n_pub or d["pub_conv"] != (stop is not None):
+        return (f"fit-info: HiddenMarkovModel(..., tol={tol}, max_iter={n}) reports n_iter={d['pub_iter']}, converged={d['pub_conv']}; "
+                f"the log-likelihood steps {[ll[k] - ll[k - 1] for k in range(1, n + 1)]} give n_iter={n_pub}, converged={stop is not None}")
+    if abs(pub_ll - ll[n_pub]) > TOL * max(1.0, abs(ll[n_pub])):
         return (f"fit-info: HiddenMarkovModel(...).fit_info reports log-likelihood {pub_ll!r} after {d['pub_iter']} iterations, "
-                f"the E/M steps give {ll[n]!r} after {n}")
+                f"the returned model's exact log-likelihood (E/M steps) is {ll[n_pub]!r}")
     pi, A = unfl(d["pub_pi"]), [unfl(r) for r in d["pub_A"]]
     if abs(sum(pi) - 1.0) > TOL or any(abs(sum(r) - 1.0) > TOL for r in A):
         return f"update-normalised: trained model has pi sum {sum(pi)!r}, row sums {[sum(r) for r in A]}"
@@ -918,8 +929,8 @@ def cases(tier, rng):
             yield {"stream": "small-scope", "op": "dwell_api", "K": 3, "path": list(p), "exclude": (sum(p) + n) % 2 == 0, "dt": 1000}
 
     # ---- seeded random: medium traces through the exact forward-backward model
-    N = 40 if quick else 400
-    Tm = 40 if quick else 120
+    N = 40 if quick else 300
+    Tm = 40 if quick else 64
     r = rng.fork("c16-medium")
     for i in range(N):
         sub = r.fork(i)
@@ -947,7 +958,7 @@ def cases(tier, rng):
         guess["tau"] = [sub.loguniform(0.3, 3.0) for _ in range(K)]
         if not emission_ok(guess, data):
             continue
-        yield dict(guess, stream="random-long", op="em", data=data, iters=sub.choice([1, 2, 3, 5, 8]), subseed=i)
+        yield dict(guess, stream="random-long", op="em", data=data, iters=sub.choice([1, 2, 3, 5, 8]), tol=sub.choice([0.0, 0.0, 1e-3, 0.5, 5.0]), subseed=i)
         if i % 4 == 0:
             yield dict(truth, stream="random-long", op="vit", data=data, subseed=i)
 
@@ -966,7 +977,7 @@ def cases(tier, rng):
 
 
 def extra_coverage(results):
-    kinds, errs, Ks, Ts = {}, {}, {}, {"1": 0, "2-7": 0, "8-120": 0, "121-5000": 0}
+    kinds, errs, Ks, Ts = {}, {}, {}, {"1": 0, "2-7": 0, "8-64": 0, "65-5000": 0}
     zero_models = ties = degenerate = em_dropped = brute = 0
     for r in results:
         c = r["case"]
@@ -978,7 +989,7 @@ def extra_coverage(results):
         if k in ("vit", "fb", "em"):
             Ks[str(c["K"])] = Ks.get(str(c["K"]), 0) + 1
             T = len(c["data"])
-            Ts["1" if T <= 1 else "2-7" if T <= 7 else "8-120" if T <= 120 else "121-5000"] += 1
+            Ts["1" if T <= 1 else "2-7" if T <= 7 else "8-64" if T <= 64 else "65-5000"] += 1
             if any(v == 0 for v in c["pi"]) or any(v == 0 for row in square(c) for v in row):
                 zero_models += 1
             if k != "em" and T and c["K"] ** T <= BRUTE_LIMIT:
